@@ -367,6 +367,8 @@ func main() {
 	flag.StringVar(&exports, "exports", "", "")
 	flag.BoolVar(&sched, "sched", false, "")
 	flag.Var(&consts, "const", "rel/file.go:NAME=VALUE")
+	var extras multi
+	flag.Var(&extras, "extra", "abs/path.go=replacement.go (additional overlay entry)")
 	flag.Parse()
 	if out == "" || rt == "" {
 		fail("need -out and -rt")
@@ -553,6 +555,13 @@ func main() {
 			overlay[filepath.Join(repo, rel)] = p
 			return nil
 		})
+	}
+	for _, e := range extras {
+		i := strings.Index(e, "=")
+		if i < 0 {
+			fail("bad -extra %q", e)
+		}
+		overlay[e[:i]] = e[i+1:]
 	}
 	b, _ := json.MarshalIndent(map[string]any{"Replace": overlay}, "", " ")
 	writeIfChanged(filepath.Join(out, "overlay.json"), b)
